@@ -102,6 +102,23 @@ def generate(rng, flavour: str, n_calls=None) -> dict:
         tl.append(dict(c, at=t, op="user.api"))
         tl.append({"at": t + 0.375, "op": "user.snapshot", "label": "after_call"})
         t += 0.5
+    if rng.random() < 0.3:
+        # a block of calls made while the link is down: the frames are produced later, when the connection is back, and each
+        # must still say what its own call asked for (several calls on the same unit are the interesting case)
+        t += 0.5
+        tl.append({"at": t - G.EPS, "op": "net.fates", "fates": [{"kind": "accept", "latency": rng.choice([0.5, 1.0])}]})
+        tl.append({"at": t, "op": "net.rst"})
+        ac = rng.choice(acs)
+        for j in range(rng.choice([2, 3, 4])):
+            c = one_call(rng, gen, inst, flavour)
+            for _ in range(20):
+                if c["call"] != "check_for_updates" and (rng.random() < 0.3 or c["target"] == ["ac", ac]):
+                    break
+                c = one_call(rng, gen, inst, flavour)
+            if c["call"] == "check_for_updates":
+                continue
+            tl.append(dict(c, at=t + 0.0625 * (j + 1), op="user.api", buffered=True))
+        t += 2.0
     return {"gen": gen, "mode": "api", "installation": inst, "knobs": knobs, "timeline": tl, "end": t + 1.0}
 
 
@@ -161,17 +178,37 @@ def evaluate(sc: dict):
                 ctx = {"zone": z}
         nxt = calls[i + 1]["seq_call"] if i + 1 < len(calls) else 10**12
         window = [f for f in frames if c["seq_call"] < f["seq"] < nxt]
+        if st.get("buffered"):
+            window = []  # written later, on the next connection: attributed below
         cmd = [f for f in window if not f["reading"]["kind"].endswith("_request") or (st["call"] == "check_for_updates" and f["reading"]["kind"] == "version_request")]
         exc = c["exc"]
         v = {"call": st["call"], "target": tgt, "args": st["args"], "exc": type(exc).__name__ if exc is not None else None,
-             "frames": cmd, "reachable": reachable, "returned": c["t_ret"] is not None, "t": c["t_call"], "expect": None, "snap_diffs": None}
+             "frames": cmd, "reachable": reachable, "returned": c["t_ret"] is not None, "t": c["t_call"], "expect": None, "snap_diffs": None,
+             "buffered": bool(st.get("buffered")), "seq_call": c["seq_call"]}
         if reachable:
             exp = apispec.expect_api(gen, tgt, st["call"], st["args"], ctx)
             v["expect"] = "raise" if exp.get("raise") else "accept" if "accept" in exp else "skip:" + exp.get("skip", "")
             if "accept" in exp:
                 v["meaning_ok"] = [any(_safe(p, f["reading"]) for p in exp["accept"]) for f in cmd]
                 v["policy"] = exp.get("policy")
+                v["_accept"] = exp["accept"]
         out.append(v)
+    # calls made while the link was down: their frames follow, in acceptance order, once the connection is back
+    held = [v for v in out if v.get("buffered")]
+    if held:
+        last = max(v["seq_call"] for v in held)
+        later = [f for f in frames if f["seq"] > last and not f["reading"]["kind"].endswith("_request")]
+        senders = [v for v in held if v["exc"] is None and v["returned"] and v["reachable"] and v["expect"] == "accept"]
+        clean = all(v["reachable"] and (v["expect"] in ("accept", "raise")) and ((v["exc"] is None) == (v["expect"] == "accept")) for v in held)
+        if clean and len(later) == len(senders):
+            for v, f in zip(senders, later):
+                v["frames"] = [f]
+                v["meaning_ok"] = [any(_safe(p, f["reading"]) for p in v["_accept"])]
+        else:
+            for v in held:
+                v["expect"] = "skip:buffered frames not attributable one to one"
+    for v in out:
+        v.pop("_accept", None)
     # closed loop: after the console's answers the getters equal the console's reports
     m2 = refmodel.Model(gen, inst, common.META)
     txi = 0
